@@ -48,7 +48,7 @@ def main():
         if meta.get("written_for") and meta["written_for"] != meta["breaks"]:
             kind += " (written for %s, see meta.json)" % meta["written_for"]
         lines.append("| seeded %s | %s | %s | %s |" % (sid, kind, ", ".join(got) or "(not run)", clause))
-    lines += ["", "Changes the first build missed, and what was strengthened (all are caught now):", "",
+    lines += ["", "Changes the first build missed, and what was strengthened (all are caught now, except seeded C02-r9A - see round 9):", "",
               "* seeded C08-A (fingerprint memoised on the shared parameter object; wrong only across a process restart): a",
               "  simulated `crash` used to discard the instance but keep module-level state. Added *hosts* = simulated",
               "  processes with their own freshly imported copy of the library and a `reboot` operation after which only",
@@ -133,6 +133,37 @@ def main():
               "  library's lenient public decoder and not restored when it raises) -> C05 calls that helper on arbitrary",
               "  strings before strict decoding; C10-r8B (no whitespace allowed outside the JSON object) was caught as",
               "  it was (the reference encoder already writes outer whitespace). The C02 agent ended without output.",
+              "* round 9 (`*-r9A/B`, 22 changes by independent sub-agents given the property text, a worktree and a one-line list",
+              "  of mechanisms already used; 21 kept). Twelve were caught by the build of the day; nine were missed or ended as",
+              "  harness errors and led to: C01-r9A (class-level list shared by all A/B instances; wrong only when two",
+              "  handshakes overlap in one process) -> a second, concurrent honest pair in 15 % of the C01 runs, judged pair by",
+              "  pair; C01-r9B (repr of the group object, i.e. its ADDRESS, hashed into the fingerprint) -> a dead simulated",
+              "  process's objects stay allocated so that a restarted process never shares addresses with its predecessor, and",
+              "  a violation whose signature reproduces in three fresh interpreters is reported although the event-log digest",
+              "  differs between them (the library's own output is address-dependent); C05-r9B (finish() strips a CR/LF tail",
+              "  after a full element) -> *framing tails* (LF, CRLF, NUL, '=', ...) as an extension fault in C05, C02 and as a",
+              "  reflection variant in C06; C06-r9B (raw-byte reflection test + minimal-length integer decoding) -> reflection",
+              "  of the own element with leading zero octets stripped; C07-r9A (`if self.xy_scalar:` instead of a flag) first",
+              "  ended as a harness error in new code of mine, now caught; C07-r9B (once-guards set when the call is LEFT) ->",
+              "  *nested* calls: the entropy function re-enters start() on the same instance (`start_reentrant`); C10-r9A /",
+              "  C16-r9B (fingerprint memo keyed by `id(params)` without a reference) -> ephemeral parameter sets in C10 and",
+              "  C16, and *address reservation*: when a session owning a private parameter set is dropped, the executor takes",
+              "  the freed blocks (the set and the elements it owned) back from the allocator at once and builds the next",
+              "  ephemeral set on them, so that address reuse is the rule of the simulation, not allocator luck, and replays",
+              "  in a fresh interpreter; C10-r9B (restore tail inside an `assert`) -> `python -O` processes in C10 too;",
+              "  C11-r9B (module-level sampler state retargeted when two draws overlap) -> re-entrant seam sweep in C11 (another",
+              "  draw over another range runs inside the first entropy read) and, in C16, calls of OTHER sessions nested inside",
+              "  a session's entropy read (same thread, nested stacks). **Still missed: C02-r9A** (memo of pw*M keyed by",
+              "  `(id(element), scalar)`; needs a dead tenant's blinding ELEMENT address to be handed to the mismatching end's",
+              "  element): the previous-tenant scenario and the element-address reservation added to C02 reproduce the",
+              "  precondition only when the constructor's allocation order cooperates (the M element lands on its",
+              "  predecessor's address, N and S usually do not); recorded as MISSED in its meta.json. C03-r9B (shift instead of",
+              "  mask in the sampler) is the same change as C03-r2B and was **not kept** for the same reason.",
+              "* aborted calls (my own fault kind, this round): the simulator raises MemoryError / KeyboardInterrupt at a chosen",
+              "  line event inside a library call (first lines, last lines, or a uniform fraction measured by a dry run of the",
+              "  same call in a forked child). Mutants `serialize-mutates-then-restores` (C08, C01) and",
+              "  `blinding-memo-reserved-before-computed` (C16) need exactly that and are caught; `start-guard-set-on-exit`",
+              "  (C07) needs the nested start.",
               "* round-3 change C07-r3A (`_started` set only when start() succeeds, so a start() after a start() whose",
               "  entropy function raised returns the one and only message) was **not kept**: the statement bounds the",
               "  number of messages returned (at most one) and fixes the error only for calls after a message was",
